@@ -576,15 +576,16 @@ def gen_h5(rng, key=None, ntr=None):
 
 def gen_cases(rng, tier):
     cases = []
-    N = 20 if tier == "quick" else 200
+    N = 30 if tier == "quick" else 250
     for key in H5_CLASSES:
         for _ in range(N): cases.append(gen_h5(rng, key))
-    M = 8 if tier == "quick" else 80
+    M = 20 if tier == "quick" else 150
     for key in CLS:
         for _ in range(M): cases.append(gen_copy(rng, key))
-    for i in range(40 if tier == "quick" else 400): cases.append(gen_vcf(rng, ties=(i % 8 == 7)))
+    for i in range(64 if tier == "quick" else 600): cases.append(gen_vcf(rng, ties=(i % 8 == 7)))
     for key in ["BV", "CM", "VM", "SGMAP", "EGMAP", "ALGM", "ADLGM"]:
-        for i in range(15 if tier == "quick" else 150): cases.append(gen_df(rng, key))
+        for i in range(30 if tier == "quick" else 250): cases.append(gen_df(rng, key))
+    for i in range(60 if tier == "quick" else 600): cases.append(gen_wd(rng))
     return cases
 
 # ------------------------------------------------------------------------------------------------ predicate
@@ -638,7 +639,7 @@ WRITTEN = {}
 
 def pred(case, out):
     if "exc" in out: return ["harness/implementation raised %s: %s" % (out["exc"], out.get("msg"))]
-    bad = {"h5": pred_h5, "copy": pred_copy, "vcf": pred_vcf, "df": pred_df}[case["kind"]](case, out)
+    bad = {"h5": pred_h5, "copy": pred_copy, "vcf": pred_vcf, "df": pred_df, "wd": pred_wd}[case["kind"]](case, out)
     seen = []
     for b in bad:
         if b not in seen: seen.append(b)
@@ -660,6 +661,11 @@ def classify(case, out, clauses):
                 if any(_hyper_keys(case["objs"][j]) - _hyper_keys(case["objs"][i]) for j in range(i)): stale = True
             if stale: return "C16-h5-stale-hyperparams"
             if any(_hyper_lossy(o) for o in case["objs"]): return "C16-h5-hyperparams-lossy"
+    if case["kind"] == "wd" and clauses:
+        # known: nested dictionaries are never cleared
+        if not all(c.startswith("[wd-stale-nested]") for c in clauses): return None
+        if not any(v is not None and v["t"] == "dict" for d in case["dicts"] for v in d.values()): return None
+        return "C16-h5-stale-hyperparams"
     if case["kind"] == "df" and clauses:
         tags = set()
         for c in clauses:
@@ -1101,4 +1107,99 @@ def pred_df(case, out):
         if fl: bad.append("[csv-float-parse] %s differ in the last bits after to_csv/from_csv (pandas' default float parser is not round-trip exact)" % ",".join(fl))
         rest = [f for f in rest if f not in fl]
     if rest: bad.append("fields not reproduced: %s" % ",".join(rest))
+    return bad
+
+# ------------------------------------------------------------------------------------------------ h5py_File_write_dict directly
+def run_wd(case):
+    import h5py
+    from pybrops.core.util.h5py import h5py_File_write_dict
+    fn = _tmp(case, ".h5")
+    if os.path.exists(fn): os.remove(fn)
+    out = {"writes": [], "dumps": []}
+    try:
+        for d, ow in zip(case["dicts"], case["overwrite"]):
+            try:
+                with h5py.File(fn, "a") as h5:
+                    h5py_File_write_dict(h5, case["group"], {k: mk(v) for k, v in d.items()}, ow)
+                out["writes"].append(None)
+            except Exception as e:
+                out["writes"].append(_exc(e))
+            out["dumps"].append(h5dump(fn) if os.path.exists(fn) else None)
+    finally:
+        if os.path.exists(fn): os.remove(fn)
+    return out
+_RUN["wd"] = run_wd
+
+WD_KEYS = ["a", "b", "mat", "ü", "params", "taxa"]
+def gen_wd(rng):
+    n = rng.randint(1, 4)
+    dicts = []
+    is_dict = {k: rng.random() < 0.3 for k in WD_KEYS}            # a key is either always data or always a dictionary
+    for _ in range(n):
+        d = {}
+        for k in rng.sample(WD_KEYS, rng.randint(1, 4)):
+            r = rng.random()
+            if r < 0.2: d[k] = None
+            elif is_dict[k]:
+                sub = {}
+                for kk in rng.sample(["x", "y", "ζ"], rng.randint(0, 3)):
+                    sub[kk] = None if rng.random() < 0.25 else (g_f64(rng, [1]) if rng.random() < 0.5 else {"t": "int", "v": rng.randint(0, 5)})
+                d[k] = {"t": "dict", "v": sub}
+            elif r < 0.45:
+                t = rng.choice(["i8", "i64", "b", "i64", "i32"])
+                d[k] = g_int(rng, [rng.randint(1, 3)], 0 if t == "b" else -5, 1 if t == "b" else 5, t)
+            elif r < 0.6: d[k] = g_f64(rng, [rng.randint(1, 2)])
+            elif r < 0.75: d[k] = g_str(rng, rng.randint(1, 3))
+            elif r < 0.87: d[k] = {"t": "s", "v": rng.choice(["x", "é/ü", ""])}
+            else: d[k] = {"t": "int", "v": rng.randint(-3, 9)}
+        dicts.append(d)
+    return {"kind": "wd", "group": rng.choice(["", "g/", "a/b/", "ü/"]), "dicts": dicts, "overwrite": [rng.random() < 0.7 for _ in range(n)]}
+
+def e_item(v):
+    if v is None: return "INone"
+    if v["t"] == "dict":
+        return "(IDict %s)" % E.lst(list(v["v"].items()), lambda kv: "(%s, %s)" % (zstr(kv[0]), "None" if kv[1] is None else "(Some (encode %s))" % e_sval(kv[1])))
+    return "(match encode %s with Some d => IData d | None => IBad end)" % e_sval(v)
+def emit_wd(case, out):
+    steps = E.lst(list(zip(case["dicts"], case["overwrite"])),
+                  lambda p: "(%s, %s)" % (E.lst(list(p[0].items()), lambda kv: "(%s, %s)" % (zstr(kv[0]), e_item(kv[1]))), E.b(p[1])))
+    outs = E.lst(range(len(case["dicts"])), lambda i: "(%s, %s)" % (E.b(out["writes"][i] is not None), "None" if out["dumps"][i] is None else "(Some %s)" % e_dump(out["dumps"][i])))
+    return "agree_wd true %s [] %s %s" % (zstr(case["group"]), steps, outs)
+_EMIT["wd"] = emit_wd
+
+def _leaves(d, pre=""):
+    out = {}
+    for k, v in d.items():
+        if v is None: continue
+        if v["t"] == "dict": out.update(_leaves(v["v"], pre + k + "/"))
+        else: out[pre + k] = v
+    return out
+def pred_wd(case, out):
+    """after a successful overwriting write the datasets below the keys of the dictionary are exactly its non-None leaves,
+    with the values written (strings as UTF-8)"""
+    bad = []
+    g = _norm_group(case["group"]); pre = g + "/" if g else ""
+    for i, (d, ow) in enumerate(zip(case["dicts"], case["overwrite"])):
+        if not ow: continue
+        if out["writes"][i] is not None:
+            # writing below an existing dataset (a key that was data and is now a dictionary, or the reverse) is refused by HDF5 itself
+            bad.append("[wd-raised] step %d: overwriting write raised %s" % (i, out["writes"][i]["exc"])); continue
+        dump = out["dumps"][i]
+        want = _leaves(d)
+        have = {k[len(pre):]: v for k, v in dump.items() if v != "G" and k.startswith(pre) and k[len(pre):].split("/")[0] in d}
+        for k, v in want.items():
+            if k not in have: bad.append("step %d: %s missing from the file" % (i, k)); continue
+            w = have[k]
+            exp = ob(mk(v)) if v["t"] in NUMT else v
+            if v["t"] in NUMT: ok = w == {kk: vv for kk, vv in exp.items() if kk != "sc"}
+            elif v["t"] == "str": ok = w == {"t": "bytes", "d": [list(s.encode("utf-8")) for s in v["d"]]}
+            elif v["t"] == "s": ok = w == {"t": "by", "v": list(v["v"].encode("utf-8"))}
+            elif v["t"] == "int": ok = w == {"t": "i64", "sh": [], "d": [v["v"]]}
+            elif v["t"] == "float": ok = w == {"t": "f64", "sh": [], "d": [fhex(float.fromhex(v["v"]))]}
+            else: ok = False
+            if not ok: bad.append("step %d: %s holds %s, written %s" % (i, k, json.dumps(w)[:80], json.dumps(v)[:80]))
+        extra = sorted(set(have) - set(want))
+        if extra:
+            nested = all("/" in k for k in extra)
+            bad.append(("[wd-stale-nested] " if nested else "") + "step %d: stale datasets below keys of the dictionary: %s" % (i, ",".join(extra)))
     return bad
